@@ -1,29 +1,38 @@
 ----------------------------- MODULE SessionTrace -----------------------------
 (* C15 trace validation.  Events are recorded by the harness around real parse / HiFiber(...)   *)
-(* calls in one interpreter: a parse logs the deep structural digest of the five parsed        *)
-(* objects, a compile logs the digest before and after and the digest of the emitted text (or  *)
-(* the exception).  The trace is accepted iff it is a behaviour of Session.tla for *some*       *)
-(* constants D(s), T(s): these are learned at their first occurrence and bound afterwards.      *)
+(* calls: a parse logs the deep structural digest of the five parsed objects, a compile logs    *)
+(* the digest before and after and the digest of the emitted text (or the exception).  One      *)
+(* trace is everything ONE interpreter did (several Session.tla histories one after the other); *)
+(* it may start with "ref" events: what a fresh interpreter produced for each specification.    *)
+(* The trace is accepted iff it is a behaviour of Session.tla for *some* constants D(s), T(s):  *)
+(* these are learned at their first occurrence (a ref event, else the first parse / compile)    *)
+(* and bound afterwards.  A rejected event does not end the validation: the event is reported,  *)
+(* counted in bad, and the rest of the trace is still checked against the bound constants.      *)
 EXTENDS Naturals, Sequences, FiniteSets, TLC, Json, IOUtils
 Traces == JsonDeserialize(IOEnv.SESSION_TRACES).traces
-VARIABLES tid, l, D, T, cur
-vars == <<tid, l, D, T, cur>>
+VARIABLES tid, l, D, T, cur, bad
+vars == <<tid, l, D, T, cur, bad>>
 Tr == Traces[tid]
 Ev == Tr[l]
 Bind(f, x, v) == [y \in DOMAIN f \cup {x} |-> IF y = x THEN v ELSE f[y]]
+Learn(f, x, v) == IF x \in DOMAIN f THEN f ELSE Bind(f, x, v)
 Clause ==
-  IF Ev.act = "parse" THEN
+  IF Ev.act = "ref" THEN "ok"
+  ELSE IF Ev.act = "parse" THEN
      (IF Ev.spec \in DOMAIN D /\ D[Ev.spec] # Ev.post THEN "parsing the same specification gave different objects" ELSE "ok")
   ELSE IF cur[Ev.objs] # Ev.pre THEN "parsed objects changed between compilations"
   ELSE IF Ev.post # Ev.pre THEN "compilation mutated its parsed inputs"
   ELSE IF Ev.spec \in DOMAIN T /\ T[Ev.spec] # Ev.out THEN "same specification, different result"
   ELSE "ok"
-Init == tid \in 1..Len(Traces) /\ l = 1 /\ D = <<>> /\ T = <<>> /\ cur = <<>>
-ParseEv == /\ l <= Len(Tr) /\ Ev.act = "parse" /\ Clause = "ok"
-           /\ D' = Bind(D, Ev.spec, Ev.post) /\ cur' = Bind(cur, Ev.objs, Ev.post) /\ l' = l + 1 /\ UNCHANGED <<tid, T>>
-CompileEv == /\ l <= Len(Tr) /\ Ev.act = "compile" /\ Clause = "ok"
-             /\ T' = Bind(T, Ev.spec, Ev.out) /\ cur' = Bind(cur, Ev.objs, Ev.post) /\ l' = l + 1 /\ UNCHANGED <<tid, D>>
-Spec == Init /\ [][ParseEv \/ CompileEv]_vars
+Fail == IF Clause = "ok" THEN 0 ELSE 1
+Init == tid \in 1..Len(Traces) /\ l = 1 /\ D = <<>> /\ T = <<>> /\ cur = <<>> /\ bad = 0
+RefEv == /\ l <= Len(Tr) /\ Ev.act = "ref"
+         /\ D' = Learn(D, Ev.spec, Ev.post) /\ T' = Learn(T, Ev.spec, Ev.out) /\ l' = l + 1 /\ UNCHANGED <<tid, cur, bad>>
+ParseEv == /\ l <= Len(Tr) /\ Ev.act = "parse"
+           /\ D' = Learn(D, Ev.spec, Ev.post) /\ cur' = Bind(cur, Ev.objs, Ev.post) /\ l' = l + 1 /\ bad' = bad + Fail /\ UNCHANGED <<tid, T>>
+CompileEv == /\ l <= Len(Tr) /\ Ev.act = "compile"
+             /\ T' = Learn(T, Ev.spec, Ev.out) /\ cur' = Bind(cur, Ev.objs, Ev.post) /\ l' = l + 1 /\ bad' = bad + Fail /\ UNCHANGED <<tid, D>>
+Spec == Init /\ [][RefEv \/ ParseEv \/ CompileEv]_vars
 Verdict == (l <= Len(Tr) /\ Clause # "ok") => PrintT("SESSION|" \o ToString(tid) \o "|" \o ToString(l) \o "|" \o Clause)
-Accepted == (l > Len(Tr)) => PrintT("SESSIONOK|" \o ToString(tid))
+Accepted == (l > Len(Tr) /\ bad = 0) => PrintT("SESSIONOK|" \o ToString(tid))
 =============================================================================
